@@ -433,6 +433,22 @@ where
             })
     }
 
+    /// Consume the trailing bytes of a value
+    /// whose length is not a multiple of the size of its samples,
+    /// so that the source stays aligned with the declared value length.
+    fn skip_value_remainder(&mut self, len: usize, sample_size: usize) -> Result<()> {
+        let rem = len % sample_size;
+        if rem > 0 {
+            let mut buf = [0u8; 8];
+            self.from
+                .read_exact(&mut buf[..rem])
+                .context(ReadValueDataSnafu {
+                    position: self.position,
+                })?;
+        }
+        Ok(())
+    }
+
     fn read_value_tag(&mut self, header: &DataElementHeader) -> Result<PrimitiveValue> {
         let len = self.require_known_length(header)?;
 
@@ -447,8 +463,10 @@ where
                     })
             })
             .collect();
+        let parts = parts?;
+        self.skip_value_remainder(len, 4)?;
         self.position += len as u64;
-        Ok(PrimitiveValue::Tags(parts?))
+        Ok(PrimitiveValue::Tags(parts))
     }
 
     fn read_value_ob(&mut self, header: &DataElementHeader) -> Result<PrimitiveValue> {
@@ -538,6 +556,7 @@ where
             .context(ReadValueDataSnafu {
                 position: self.position,
             })?;
+        self.skip_value_remainder(len, 2)?;
 
         self.position += len as u64;
         Ok(PrimitiveValue::I16(vec))
@@ -553,6 +572,7 @@ where
             .context(ReadValueDataSnafu {
                 position: self.position,
             })?;
+        self.skip_value_remainder(len, 4)?;
         self.position += len as u64;
         Ok(PrimitiveValue::F32(vec))
     }
@@ -746,6 +766,7 @@ where
             .context(ReadValueDataSnafu {
                 position: self.position,
             })?;
+        self.skip_value_remainder(len, 8)?;
         self.position += len as u64;
         Ok(PrimitiveValue::F64(vec))
     }
@@ -761,6 +782,7 @@ where
             .context(ReadValueDataSnafu {
                 position: self.position,
             })?;
+        self.skip_value_remainder(len, 4)?;
         self.position += len as u64;
         Ok(PrimitiveValue::U32(vec))
     }
@@ -789,6 +811,7 @@ where
             .context(ReadValueDataSnafu {
                 position: self.position,
             })?;
+        self.skip_value_remainder(len, 2)?;
 
         self.position += len as u64;
 
@@ -811,6 +834,7 @@ where
             .context(ReadValueDataSnafu {
                 position: self.position,
             })?;
+        self.skip_value_remainder(len, 8)?;
         self.position += len as u64;
         Ok(PrimitiveValue::U64(vec))
     }
@@ -826,6 +850,7 @@ where
             .context(ReadValueDataSnafu {
                 position: self.position,
             })?;
+        self.skip_value_remainder(len, 4)?;
         self.position += len as u64;
         Ok(PrimitiveValue::I32(vec))
     }
@@ -841,6 +866,7 @@ where
             .context(ReadValueDataSnafu {
                 position: self.position,
             })?;
+        self.skip_value_remainder(len, 8)?;
         self.position += len as u64;
         Ok(PrimitiveValue::I64(vec))
     }
